@@ -110,6 +110,12 @@ def r13_2(cx):
     if len(sf) == 1:
         mm = re.search(r';\s*(\d+)\s*\]', str(sf[0]['ty']))
         nslots = int(mm.group(1)) if mm else None
+    if nslots is None:
+        # (the length is a named constant in the type: count the entries of the array the constructor builds)
+        arrs = [st for pos, st in m.new.statements() if st['k'] == 'assign' and st['rv']['k'] == 'agg' and st['rv'].get('ak') == 'array']
+        reps = [st for pos, st in m.new.statements() if st['k'] == 'assign' and st['rv']['k'] == 'repeat']
+        if len(arrs) == 1 and not reps:
+            nslots = len(arrs[0]['rv']['ops'])
     cx.check(nslots is not None and nslots >= 2, 'two-slots', None, '%s:%s' % (m.adt['file'], m.adt['line']), 'snapshots: [BaseTime; %s]' % nslots,
              fail_detail='the writer has no spare copy to write into (snapshots has %s entries): it overwrites the copy readers are validating' % nslots)
     cx.check(idx is not None and m.is_mod_len(idx, is_v), 'slot-index', fn, up.loc(),
